@@ -3,6 +3,7 @@ import os
 import vf
 
 LEVEL = "exploration"
+BUILDS = [("c10_queue", "plain"), ("c10_queue", "tsan"), ("c10_queue", "asan")]
 
 
 def _bq_worker(ctx, binary, seed, start, count, timeout):
